@@ -545,7 +545,8 @@ impl<P: Pred> World<P> {
             if !self.core.viols.is_empty() {
                 break;
             }
-            if all_done_at.is_none() && self.core.nodes.iter().filter(|n| n.alive && !n.is_spec).all(|n| n.reached_target_at.is_some()) {
+            // spectators take part in the run: the settle time only starts once they are synchronised
+            if all_done_at.is_none() && self.core.nodes.iter().filter(|n| n.alive).all(|n| if n.is_spec { n.running_at.is_some() } else { n.reached_target_at.is_some() }) {
                 all_done_at = Some(t);
             }
             if let Some(d) = all_done_at {
